@@ -1,0 +1,114 @@
+//go:build verif
+
+package store
+
+import (
+	"github.com/simpleiot/simpleiot/data"
+)
+
+// Verification hooks (build tag "verif" only): exported wrappers around unexported
+// store functions and a raw dump of the tables. No logic of their own.
+
+// VerifNodePoints calls nodePoints.
+func (sdb *DbSqlite) VerifNodePoints(id string, points data.Points) error {
+	return sdb.nodePoints(id, points)
+}
+
+// VerifEdgePoints calls edgePoints.
+func (sdb *DbSqlite) VerifEdgePoints(nodeID, parentID string, points data.Points) error {
+	return sdb.edgePoints(nodeID, parentID, points)
+}
+
+// VerifGetNodes calls getNodes outside a transaction.
+func (sdb *DbSqlite) VerifGetNodes(parent, id, typ string, includeDel bool) ([]data.NodeEdge, error) {
+	return sdb.getNodes(nil, parent, id, typ, includeDel)
+}
+
+// VerifUp calls up.
+func (sdb *DbSqlite) VerifUp(id string, includeDeleted bool) ([]string, error) {
+	return sdb.up(id, includeDeleted)
+}
+
+// VerifUserCheck calls userCheck.
+func (sdb *DbSqlite) VerifUserCheck(email, password string) (data.Nodes, error) {
+	return sdb.userCheck(email, password)
+}
+
+// VerifRootID returns the root node id held in memory.
+func (sdb *DbSqlite) VerifRootID() string {
+	return sdb.rootNodeID()
+}
+
+// VerifVerifyHashes calls verifyNodeHashes.
+func (sdb *DbSqlite) VerifVerifyHashes(fix bool) error {
+	return sdb.verifyNodeHashes(fix)
+}
+
+// VerifEdgeRow is one row of the edges table.
+type VerifEdgeRow struct {
+	ID, Up, Down, Type string
+	Hash               uint32
+}
+
+// VerifPointRow is one row of node_points or edge_points.
+type VerifPointRow struct {
+	Owner string // node_id or edge_id
+	Point data.Point
+	// ValueNull is set when the value column holds NULL (Point.Value is then 0)
+	ValueNull bool
+}
+
+// VerifDump returns the raw rows of the edges, node_points and edge_points tables and
+// the root id stored in the meta row.
+func (sdb *DbSqlite) VerifDump() (edges []VerifEdgeRow, nodePts, edgePts []VerifPointRow, metaRoot string, err error) {
+	rows, err := sdb.db.Query("SELECT id, up, down, hash, type FROM edges")
+	if err != nil {
+		return
+	}
+	for rows.Next() {
+		var e VerifEdgeRow
+		if err = rows.Scan(&e.ID, &e.Up, &e.Down, &e.Hash, &e.Type); err != nil {
+			rows.Close()
+			return
+		}
+		edges = append(edges, e)
+	}
+	rows.Close()
+
+	readPts := func(q string) ([]VerifPointRow, error) {
+		var out []VerifPointRow
+		rows, err := sdb.db.Query(q)
+		if err != nil {
+			return nil, err
+		}
+		defer rows.Close()
+		for rows.Next() {
+			var r VerifPointRow
+			var timeNS int64
+			var v *float64
+			if err := rows.Scan(&r.Owner, &r.Point.Type, &r.Point.Key, &timeNS, &v, &r.Point.Text,
+				&r.Point.Data, &r.Point.Tombstone, &r.Point.Origin); err != nil {
+				return nil, err
+			}
+			if v == nil {
+				r.ValueNull = true
+			} else {
+				r.Point.Value = *v
+			}
+			r.Point.Time = verifUnixNano(timeNS)
+			out = append(out, r)
+		}
+		return out, nil
+	}
+
+	nodePts, err = readPts("SELECT node_id, type, key, time, value, text, data, tombstone, origin FROM node_points")
+	if err != nil {
+		return
+	}
+	edgePts, err = readPts("SELECT edge_id, type, key, time, value, text, data, tombstone, origin FROM edge_points")
+	if err != nil {
+		return
+	}
+	err = sdb.db.QueryRow("SELECT root_id FROM meta").Scan(&metaRoot)
+	return
+}
